@@ -141,6 +141,11 @@ var callSite int
 // earlierStatus is a status some earlier code of the request recorded (SetStatus) before the helper is called; 0 = none.
 var earlierStatus int
 
+// earlierCT is a Content-Type something earlier in the request left in the header.  The context helpers that
+// announce their own type (Text, HTML, HTMLString, JSONBytes, Blob, Stream) replace it; it is set for those only
+// (the pkg/render renderers behind JSON, JSONP, XML keep a type that is already there - the other half of C19).
+var earlierCT string
+
 var callSiteNames = []string{"route-handler", "OnPanic-hook", "NotFound-handler", "aborting-global-middleware"}
 
 func run(headers map[string]string, accept string, f func(c *rux.Context) error) result {
@@ -152,6 +157,9 @@ func run(headers map[string]string, accept string, f func(c *rux.Context) error)
 		}
 		if earlierStatus != 0 {
 			c.SetStatus(earlierStatus) // a status recorded earlier in the request: the helper's own status replaces it
+		}
+		if earlierCT != "" {
+			c.SetHeader("Content-Type", earlierCT) // left there by an earlier, abandoned answer (a failed render ...)
 		}
 		res.retErr = f(c)
 		res.nErr = len(c.Errors)
@@ -215,6 +223,11 @@ func propHelpers(t *rapid.T) {
 	ev.Class("helper-called-from:" + callSiteNames[callSite])
 	status := rapid.OneOf(rapid.SampledFrom([]int{200, 201, 202, 206, 400, 404, 418, 500, 503, 599}), rapid.IntRange(200, 599)).Draw(t, "status")
 	helper := rapid.SampledFrom([]string{"Text", "HTML", "HTMLString", "JSON", "JSONBytes", "JSONP", "XML", "Blob", "Stream", "NoContent", "Redirect", "HTTPError", "JSON-unencodable", "XML-unencodable", "JSONP-unencodable", "ShouldRender", "ShouldRender", "Respond"}).Draw(t, "helper")
+	switch helper {
+	case "Text", "HTML", "HTMLString", "JSONBytes", "Blob", "Stream":
+		earlierCT = rapid.SampledFrom([]string{"", "", "application/problem+json", "text/csv"}).Draw(t, "earlierContentType")
+	}
+	defer func() { earlierCT = "" }()
 	ev.Eval()
 	ev.Class("helper:" + helper)
 	var res result
